@@ -98,6 +98,18 @@ def probe_leaf_param(presentation='direct', rec_order=None):
     return Registry('leaf_param', direct, [(1, [3]), (1, [1]), (1, [0])], [[[3]], [[1], [3]], [[0]]], presentation, rec_order)
 
 
+def probe_many_defs():
+    # Shape(0), Special:{Shape}(1), seven fillers F2..F8:{Shape}; one method (Shape, Shape) with 66 definitions: (Special,Shape) first,
+    # 64 fillers, (Shape,Special) last - the bit set of applicable definitions crosses the 64-bit block boundary
+    direct = [[]] + [[0] for _ in range(8)]
+    fill = [[i, j] for i in range(2, 9) for j in range(2, 9)] + [[i, 0] for i in range(2, 9)] + [[0, j] for j in range(2, 9)] + [[0, 0]]
+    assert len(fill) == 64
+    return Registry('many_defs', direct, [(2, [0, 0])], [[[1, 0]] + fill + [[0, 1]]])
+
+
+BIG = {'VMODEL_CAP': 80, 'PTRCAP': 128, 'DDCAP': 192, 'VMODEL_BITSET_WORDS': 2}
+
+
 def probe_next():
     # C03: (A,A), (A,Dog), (Dog,A), (Dog,Cat) over Animal <- Dog, Cat
     return Registry('tree3_next', LATTICES['tree3'], [(2, [0, 0]), (2, [0, 0])],
@@ -141,7 +153,8 @@ def c01_queries(tier):
 
 
 def c02_queries(tier):
-    return [_q('C02', r, 'errorcell_' + tag(r, i)) for i, r in enumerate(base_regs(tier)[:10 if tier == 'quick' else 30])]
+    qs = [_q('C02', r, 'errorcell_' + tag(r, i)) for i, r in enumerate(base_regs(tier)[:10 if tier == 'quick' else 30])]
+    return qs
 
 
 def c03_queries(tier):
